@@ -5,6 +5,7 @@ decode+render, a fresh image with "fail allocation k and all later" (hook H1); e
 runs in a worker subprocess under a deadline; handle states (hook H3) and the scheduling-point
 trace (hook H4) are compared with the model's guided replay; after the switch is lifted and after
 request_image_region the samples are compared bit-for-bit with the clean render."""
+import re
 from vlib import *
 import os
 from props.c08lib import *
@@ -47,6 +48,47 @@ def loading_frame_faults(ctx):
             bad += 1
 
 
+def real_limit_scenarios(ctx, images):
+    """a render refused by the tracker's REAL byte limit (not the H1 switch, which answers before any
+    accounting), then the limit given back: after request_image_region the render must be the clean one.
+    Budget: what a clean load + render peaks at plus 1 % slack; the refusal leaves half of it."""
+    from props.c08lib import run_scenarios
+    probes = [[f"open {im.path} none", "render 0", "budget", f"open {im.path} none", "budget"] for im in images]
+    res = run_scenarios(ctx, probes, 60000)
+    scen, meta = [], []
+    for im, (outs, status) in zip(images, res):
+        if status != "ok" or len(outs) < 5 or not outs[1].startswith("ok ") or not im.size:
+            continue
+        m1, m0 = re.search(r"peak=(\d+)", outs[2]), re.search(r"outstanding=(\d+)", outs[4])
+        if not m1 or not m0:
+            continue
+        peak, o1, href = int(m1.group(1)), int(m0.group(1)), outs[1].split()[1]
+        W, H = im.size
+        for frac in (2, 3, 10):
+            for nfail in (1, 2, 3):
+                t = peak - o1 + max(4096, peak // 100)
+                s_ = t - t // frac
+                sc = [f"open {im.path} none", f"leave {t}", f"shrink {s_}"]
+                for _ in range(nfail):
+                    sc += ["render 0", f"region 0 0 {W} {H}"]
+                sc += [f"raise {s_}", f"region 0 0 {W} {H}", "render 0"]
+                scen.append(sc); meta.append((im, href, nfail, frac))
+    res = run_scenarios(ctx, scen, 60000)
+    for sc, (im, href, nfail, frac), (outs, status) in zip(scen, meta, res):
+        ctx.case(("real-limit", im.name, nfail, frac), nontrivial=any(o.startswith("err") for o in outs))
+        ctx.count("real-limit:" + status)
+        rep = {"scenario": sc, "answers": [o[:120] for o in outs], "how": "feed the lines to harness/target/debug/c08"}
+        if status != "ok" or not outs:
+            ctx.violation("render-under-a-real-limit-hung-or-crashed", status, rep, key="c08:real-limit-" + status)
+            continue
+        last = outs[-1]
+        if any(o.startswith("err") for o in outs[:-1]):
+            ctx.count("real-limit:refused-renders")
+        if not last.startswith("ok ") or last.split()[1] != href:
+            ctx.violation("render-after-the-limit-was-given-back-is-not-the-clean-render",
+                          {"answer": last[:160], "clean": href, "refused_renders": nfail}, rep, key="c08:real-limit-after")
+
+
 def run(ctx):
     ok = ctx.lean_build(MODULES)
     if ok:
@@ -66,6 +108,7 @@ def run(ctx):
     images = fixture_images(ctx)
     for im in images:
         sweep_image(ctx, im, use_model=ok)
+    real_limit_scenarios(ctx, images)
     loading_frame_faults(ctx)
     ctx.assumptions += [
         "the fault model is the tracked-allocation switch H1 (fail the k-th and every later AllocTracker::alloc); "
